@@ -61,6 +61,11 @@ func Dump(c *ctx.Ctx, what string) error {
 		for _, k := range ks {
 			fmt.Println(k, free[k][0], len(free[k]))
 		}
+	case "switches":
+		if err := c.Load(); err != nil {
+			return err
+		}
+		DumpSwitches(c)
 	default:
 		return fmt.Errorf("unknown dump %q", what)
 	}
